@@ -42,10 +42,13 @@ func (c Cipher) DecryptReader(key []byte, stream filesystem.Reader) (reader file
 		fileCipher cipherfs.Cipher
 	)
 	if _, err = stream.Read(p); err != nil {
+		// the stream is owned by this call: release it when no reader is returned
+		stream.Close()
 		return nil, err
 	}
 	ckey = NewCipherKey(p)
 	if fileCipher = c.mapping[ckey]; fileCipher == nil {
+		stream.Close()
 		return nil, goaterr.Errorf("Unknow cipher for %v key", ckey)
 	}
 	return fileCipher.DecryptReader(key, stream)
